@@ -589,16 +589,35 @@ def absolute(name, family, cargs, R, ds, where, refused=False):
 
 def run_application(ctx, A, context, R, where):
     app = R["app_id"]
-    for raising in (False, True):
+    # the block is left normally, by an arbitrary exception, by an error the
+    # machine reports for a command of the block (a chip that does not
+    # exist), and normally while an earlier machine error is being handled
+    for raising in (False, True, "machine-error", "while-handling"):
         mark = len(A.net.log)
         before = A.mc.get_context_arguments()
         try:
-            with (context if not raising else A.mc.application(app)):
-                inside = A.mc.get_context_arguments()
-                A.mc.send_signal("pause")
-                if raising:
-                    raise KeyError("boom")
-        except KeyError:
+            if raising == "while-handling":
+                try:
+                    A.mc.read(0x60000000, 4, 9, 9, 0)
+                except A.sc.SCPError:
+                    mark = len(A.net.log)
+                    with A.mc.application(app):
+                        inside = A.mc.get_context_arguments()
+                        A.mc.send_signal("pause")
+            else:
+                with (context if not raising else A.mc.application(app)):
+                    inside = A.mc.get_context_arguments()
+                    A.mc.send_signal("pause")
+                    if raising == "machine-error":
+                        mark2 = len(A.net.log)
+                        try:
+                            A.mc.read(0x60000000, 4, 9, 9, 0)
+                        finally:
+                            # the refused read is not part of the judgement
+                            del A.net.log[mark2:]
+                    if raising:
+                        raise KeyError("boom")
+        except (KeyError, A.sc.SCPError):
             pass
         ctx.hit("application_stop_signal")
         check(inside.get("app_id") == app, "application-context",
